@@ -1,0 +1,28 @@
+//go:build verif && linux
+
+package kcp
+
+import "golang.org/x/net/ipv4"
+
+// verifBatch stands in for the sendmmsg side of a real UDP socket.
+type verifBatch struct {
+	w func(datagrams [][]byte) (int, error)
+}
+
+func (b verifBatch) WriteBatch(ms []ipv4.Message, flags int) (int, error) {
+	d := make([][]byte, len(ms))
+	for i := range ms {
+		d[i] = ms[i].Buffers[0]
+	}
+	return b.w(d)
+}
+
+func (b verifBatch) ReadBatch(ms []ipv4.Message, flags int) (int, error) { select {} }
+
+// VerifSetBatchWriter makes the session transmit through the batch path
+// (tx_linux.go) as it does on a real UDP socket: fn is handed the datagrams of
+// one WriteBatch call and reports how many of them it took - a count below
+// len(datagrams) is a legal result of sendmmsg. Call it before any traffic.
+func (s *UDPSession) VerifSetBatchWriter(fn func(datagrams [][]byte) (int, error)) {
+	s.platform.batchConn = verifBatch{fn}
+}
